@@ -9,6 +9,33 @@ def reads_max_frame_size(e):
     return mentions_field(e, ENC, 'max_frame_size') or core.contains_call(e, ENC + '::max_frame_size')
 
 
+def additive_leaves(e):
+    """leaves of a tree of (checked) additions; None when another operator is involved"""
+    e = strip(e)
+    while e[0] == 'cast':
+        e = strip(e[1])
+    if e[0] == 'field' and e[3] == '0' and strip(e[1])[0] == 'bin' and strip(e[1])[1] == 'AddWithOverflow':
+        e = strip(e[1])
+    if e[0] == 'bin':
+        if e[1] not in ('Add', 'AddWithOverflow', 'AddUnchecked'):
+            return None
+        a, b = additive_leaves(e[2]), additive_leaves(e[3])
+        if a is None or b is None:
+            return None
+        return a + b
+    return [e]
+
+
+def is_head_limit(e):
+    """e == max_frame_size + 9 exactly (the frame head is the only allowance on top of the peer's limit)"""
+    ls = additive_leaves(e)
+    if ls is None:
+        return False
+    consts = [l for l in ls if l[0] == 'const']
+    rest = [l for l in ls if l[0] != 'const']
+    return len(rest) == 1 and reads_max_frame_size(rest[0]) and rest[0][0] in ('call', 'field', 'deref') and sum(c[1] for c in consts if isinstance(c[1], int)) == 9 and all(isinstance(c[1], int) for c in consts)
+
+
 EXHAUSTIVE = True
 EXPLANATION = (
     "Decides layout agreement, not round-trip: every frame-type code, flag bit, setting identifier, default / limit "
@@ -292,16 +319,16 @@ def r3_send_size(ctx):
         r.floor(len(lim), 2, 'limited-buffer sites in Encoder::buffer (HEADERS, PUSH_PROMISE)')
         for bi, t in lim:
             e = b.expr_of_op(t['a'][1])
-            ok = reads_max_frame_size(e) and any(c[1] == 9 for c in core.consts_in(e))
-            r.check(ok, 'headers|limit|%d' % len([x for x in r.results if x.key.startswith('headers|limit')]), b.loc(bi), 'limit = %s' % core.show(e))
+            ok = is_head_limit(e)
+            r.check(ok, 'headers|limit|%d' % len([x for x in r.results if x.key.startswith('headers|limit')]), b.loc(bi), 'limit = %s (must be exactly max_frame_size + 9-byte head: the whole payload, promised id and padding included, counts against the SETTINGS_MAX_FRAME_SIZE of the peer)' % core.show(e))
     u = r.fn('codec::framed_write::Encoder::unset_frame')
     if u:
         lim = u.calls(lambda t: t['fn'] == 'bytes::BufMut::limit')
         r.floor(len(lim), 1, 'limited-buffer site in Encoder::unset_frame (CONTINUATION)')
         for bi, t in lim:
             e = u.expr_of_op(t['a'][1])
-            ok = reads_max_frame_size(e) and any(c[1] == 9 for c in core.consts_in(e))
-            r.check(ok, 'continuation|limit', u.loc(bi), 'limit = %s' % core.show(e))
+            ok = is_head_limit(e)
+            r.check(ok, 'continuation|limit', u.loc(bi), 'limit = %s (exactly max_frame_size + 9)' % core.show(e))
     s = r.fn('codec::framed_write::FramedWrite::set_max_frame_size')
     if s:
         # asserts val <= MAX_MAX_FRAME_SIZE
@@ -338,7 +365,38 @@ def r4_recv_size(ctx):
     r.floor(len(callers), 3, 'callers of Codec::set_max_recv_frame_size (client handshake, server handshake, settings ACK)')
 
 
+def r6_final_flush(ctx, rid='C12.R6'):
+    r = ctx.rule(rid, 'GUARD', 'close: the final flush is marked done only after flush() returned Ready(Ok); the transport is shut down only behind it')
+    F = ctx.facts
+    FW = 'codec::framed_write::FramedWrite'
+    f = r.fn(FW + '::shutdown')
+    if not f:
+        return
+    flush = [bi for bi, t in f.calls_to(FW + '::flush')]
+    r.check(len(flush) == 1, 'flush|site', f.file, 'FramedWrite::shutdown calls flush at %d site(s)' % len(flush))
+    ready = core.guard_edges(F, f, [FW + '::flush'], lambda l: l == frozenset(['Ready']))
+    okay = core.guard_edges(F, f, [FW + '::flush'], lambda l: isinstance(l, frozenset) and bool(l) and l <= frozenset(['Ok', 'Ready(Ok)']))
+    done = core.edges_where(F, f, lambda sw: sw.kind == 'bool' and core.last_field(strip(sw.subject)) == (FW, 'final_flush_done'), lambda l: l is True)
+    ws = [(bi, ln) for bi, si, pl, rv, ln in f.stmts() if core.write_target(f, pl) == (FW, 'final_flush_done')]
+    r.check(len(ws) >= 1, 'flag|written', f.file, 'final_flush_done is set in shutdown')
+    for bi, ln in ws:
+        ok = bool(okay) and f.dominated_by_edges(bi, okay) and (not ready or f.dominated_by_edges(bi, ready))
+        r.check(ok, 'flag|after-flush-ok', '%s:%d' % (f.file, ln), 'final_flush_done = true %s' % ('only on the Ready(Ok) edge of flush()' if ok else 'before flush() has completed: after a Pending the next poll skips the flush and everything still staged (final GOAWAY, DATA tail, CONTINUATION) is lost'))
+    for bi, t in f.calls(lambda t: t['fn'].endswith('AsyncWrite::poll_shutdown')):
+        ok = bool(okay) and bool(done) and f.dominated_by_edges(bi, okay + done)
+        r.check(ok, 'shutdown|behind-flush', f.loc(bi), 'poll_shutdown is reached only with the flag set or right after a completed flush')
+    r.floor(len(f.calls(lambda t: t['fn'].endswith('AsyncWrite::poll_shutdown'))), 1, 'poll_shutdown sites')
+    # the flag has no other writer
+    writers = set()
+    for name, g in F.fns.items():
+        for bi, si, pl, rv, ln in g.stmts():
+            if core.write_target(g, pl) == (FW, 'final_flush_done') and not (rv[0] == 'use' and core.op_const(rv[1]) is not None and core.op_const(rv[1])[0] == 0):
+                writers.add(name)
+    r.check(writers <= {FW + '::shutdown'}, 'flag|writers', '', 'final_flush_done is raised only in shutdown: %s' % sorted(writers))
+
+
 def run(ctx):
+    r6_final_flush(ctx)
     r1_tables(ctx)
     r2_head(ctx)
     r3_send_size(ctx)
